@@ -245,8 +245,10 @@ pub fn run(ctx: &mut Ctx) {
                             st.int_stack.push(size);
                         }
                         "NAME.RANDBOUNDNAME" => {
+                            // (bound names as programs can make them: plain, with blanks (NAME.CAT, CODE.PRINT), empty, non-ASCII)
+                            let styles: [&[&str]; 4] = [&["bound0", "bound1", "bound2"], &["two words", "x y z", " lead"], &["", "tab\there"], &["é", "bound0", "a b"]];
                             for b in 0..(variant % 4) {
-                                st.name_bindings.insert(format!("bound{}", b), SItem::Int(b as i32).to_item());
+                                st.name_bindings.insert(styles[(variant / 4) % 4][b % styles[(variant / 4) % 4].len()].to_string(), SItem::Int(b as i32).to_item());
                             }
                         }
                         _ => {}
